@@ -129,6 +129,22 @@ type FuncInfo struct {
 	Fn     string `json:"fn"`
 	Instrs int    `json:"instrs"`
 	Sha    string `json:"sha"`
+	// block coverage (only with VERIF_COVERAGE_DIR): source file, first line, number of blocks, and for
+	// every block its [min,max] source line and whether some explored path executed it
+	File    string   `json:"file,omitempty"`
+	Line    int      `json:"line,omitempty"`
+	NBlocks int      `json:"nblocks,omitempty"`
+	Covered []int    `json:"covered,omitempty"`
+	BlockLn [][2]int `json:"block_lines,omitempty"`
+}
+
+var coverageOn = os.Getenv("VERIF_COVERAGE_DIR") != ""
+
+func (e *Engine) newBlockSet() map[*ssa.BasicBlock]bool {
+	if !coverageOn {
+		return nil
+	}
+	return map[*ssa.BasicBlock]bool{}
 }
 
 type EntryResult struct {
@@ -180,6 +196,7 @@ type Engine struct {
 	memo   map[string]bool
 	res    *EntryResult
 	funcs  map[*ssa.Function]bool
+	blocks map[*ssa.BasicBlock]bool
 	unknownQ []string
 	stop   bool
 	trace  bool
@@ -390,6 +407,12 @@ func (l *Loaded) Explore(spec *EntrySpec, activeKnown map[string]bool, workers i
 			for f := range x.funcsSeen {
 				e.funcs[f] = true
 			}
+			for b := range x.blocksSeen {
+				if e.blocks == nil {
+					e.blocks = map[*ssa.BasicBlock]bool{}
+				}
+				e.blocks[b] = true
+			}
 			for k, n := range x.extSeen {
 				_ = n
 				found := false
@@ -410,7 +433,7 @@ func (l *Loaded) Explore(spec *EntrySpec, activeKnown map[string]bool, workers i
 		return nil, fmt.Errorf("engine failure in %s: %v", spec.Name, fatal)
 	}
 	for f := range e.funcs {
-		if f.Pkg == nil || !strings.HasPrefix(f.Pkg.Pkg.Path(), l.modPath) && f.Blocks == nil {
+		if fp := fnPkg(f); fp == nil || !strings.HasPrefix(fp.Pkg.Path(), l.modPath) && f.Blocks == nil {
 			continue
 		}
 		n := 0
@@ -420,7 +443,30 @@ func (l *Loaded) Explore(spec *EntrySpec, activeKnown map[string]bool, workers i
 		var sb strings.Builder
 		f.WriteTo(&sb)
 		sum := sha256.Sum256([]byte(sb.String()))
-		e.res.Funcs = append(e.res.Funcs, FuncInfo{Fn: f.String(), Instrs: n, Sha: fmt.Sprintf("%x", sum[:6])})
+		fi := FuncInfo{Fn: f.String(), Instrs: n, Sha: fmt.Sprintf("%x", sum[:6])}
+		if coverageOn && f.Prog != nil {
+			pos := f.Prog.Fset.Position(f.Pos())
+			fi.File, fi.Line, fi.NBlocks = pos.Filename, pos.Line, len(f.Blocks)
+			for _, b := range f.Blocks {
+				lo, hi := 0, 0
+				for _, in := range b.Instrs {
+					if p := in.Pos(); p.IsValid() {
+						ln := f.Prog.Fset.Position(p).Line
+						if lo == 0 || ln < lo {
+							lo = ln
+						}
+						if ln > hi {
+							hi = ln
+						}
+					}
+				}
+				fi.BlockLn = append(fi.BlockLn, [2]int{lo, hi})
+				if e.blocks[b] {
+					fi.Covered = append(fi.Covered, b.Index)
+				}
+			}
+		}
+		e.res.Funcs = append(e.res.Funcs, fi)
 	}
 	sort.Slice(e.res.Funcs, func(i, j int) bool { return e.res.Funcs[i].Fn < e.res.Funcs[j].Fn })
 	sort.Strings(e.res.Externals)
